@@ -33,6 +33,12 @@ class Actors:
 
         class Root:
             _label = '?'
+            _inst_events = None
+
+            def __init__(self):
+                if self._inst_events is not None:
+                    # the mapping lives on the instance, not on the class
+                    self.__events__ = dict(self._inst_events)
 
             def on_add(self, entity, world):
                 it.cb('life', self._label, 'on_add', entity, world)
@@ -48,12 +54,22 @@ class Actors:
             probed = probe
 
         class CtrlRoot(Root, desper.Controller):
+            def __init__(self):
+                Root.__init__(self)
+
             def on_add(self, entity, world):
                 desper.Controller.on_add(self, entity, world)
                 it.cb('life', self._label, 'on_add', entity, world)
 
         class RunProc(desper.Processor):
             _label = '?'
+
+            if config.get('peq'):
+                # processors comparing equal by priority (identity hash)
+                def __eq__(self, other):
+                    return (isinstance(other, desper.Processor)
+                            and self.priority == other.priority)
+                __hash__ = object.__hash__
 
             def process(self, dt=1):
                 it.proc_called(self, dt)
@@ -69,6 +85,10 @@ class Actors:
 
         class ShadowRoot:
             priority = 0
+
+        import abc
+        # a query type whose "subclasses" are registered virtually
+        self.Virtual = abc.ABCMeta('Virtual', (), {})
 
         self.Root, self.CtrlRoot, self.RunProc = Root, CtrlRoot, RunProc
         self.ShadowRoot = ShadowRoot
@@ -91,6 +111,8 @@ class Actors:
         if not bases:
             bases = (self.CtrlRoot,) if spec.get('ctrl') else (self.Root,)
         ns = {}
+        if spec.get('inst_events'):
+            ns['_inst_events'] = {n: n for n in spec['inst_events']}
         if spec.get('falsy') == 'bool':
             ns['__bool__'] = lambda self: False
         elif spec.get('falsy') == 'len':
@@ -103,6 +125,8 @@ class Actors:
         if deco is not None:
             cls = self.desper.event_handler(*deco.get('names', []),
                                             **deco.get('maps', {}))(cls)
+        if spec.get('virtual'):
+            self.Virtual.register(cls)
         self.classes[i] = cls
         return cls
 
@@ -150,7 +174,7 @@ class Actors:
 
 
 def events_of(obj):
-    ev = getattr(type(obj), '__events__', None)
+    ev = getattr(obj, '__events__', None)       # class or instance level
     return ev if isinstance(ev, dict) else None
 
 
@@ -856,8 +880,21 @@ class Interp:
 
     def op_process(self, op, start):
         _, dt = op
-        if self.depth:
+        if self.depth > 1 or (self.depth and (
+                self.in_life or getattr(self, 'ghosts', None)
+                or self.rel_stack)):
             return 'skip'
+        if self.depth:
+            # sub-stepping: process() called from inside a processor
+            self.probes['nested_process'] += 1
+            saved = (self.cur_dt, self.life_ok)
+            try:
+                return self.do_process(op, start, dt)
+            finally:
+                self.cur_dt, self.life_ok = saved
+        return self.do_process(op, start, dt)
+
+    def do_process(self, op, start, dt):
         self.cur_dt = dt
         groups = []
         ghosts = getattr(self, 'ghosts', set())
@@ -1178,6 +1215,19 @@ class Interp:
                                       f'returned {lab}, exact type attached')
                     elif ci != -1:
                         self.probes['get_by_base_type'] += 1
+        # a type with virtual subclasses: whatever "subclass" means there,
+        # the three query styles must tell the same story
+        V = A.Virtual
+        listed = {repr(e) for e, c in w.get(V)}
+        for eid in ids:
+            has = bool(w.has_component(eid, V))
+            sentinel = object()
+            found = w.get_component(eid, V, sentinel) is not sentinel
+            if not (has == found == (repr(eid) in listed)):
+                self.fail('C01', 'queries_disagree', f'virtual base type: '
+                          f'has_component({eid!r}) = {has}, get_component '
+                          f'finds one = {found}, listed by get() = '
+                          f'{repr(eid) in listed}')
         got = sorted(map(repr, w.entities))
         want = sorted(repr(e) for e in self.ents if e not in self.dead)
         if got != want:
@@ -1368,9 +1418,15 @@ def gen_config(prop, rng):
             bases = sorted(rng.sample(range(i), k), reverse=True)
         deco = rng.choice(DECOS[1:]) if rng.random() < handler_p else None
         spec = {'bases': bases, 'deco': deco}
+        if deco is None and not bases and handler_p and rng.random() < .25:
+            spec['inst_events'] = rng.choice([
+                ['on_add', 'on_remove', 'probe'], ['on_remove'],
+                ['on_add', 'on_remove'], ['probe', 'on_remove']])
         if rng.random() < .12:
             # container-like components that are falsy when queried
             spec['falsy'] = rng.choice(['bool', 'len'])
+        if rng.random() < .15:
+            spec['virtual'] = True      # registered with an ABC
         if not bases and handler_p and rng.random() < .2:
             spec['ctrl'] = True
         if bases and prop in ('C01', 'C06') and rng.random() < .15:
@@ -1402,7 +1458,8 @@ def gen_config(prop, rng):
     faults = [f for f in ('raise', 'ghost') if rng.random() < .5]
     if rng.random() < 1 / 3:
         faults = []
-    return {'policy': rng.choice(kernel.POLICIES), 'classes': classes,
+    return {'peq': prop == 'C07' and rng.random() < .25,
+            'policy': rng.choice(kernel.POLICIES), 'classes': classes,
             'insts': insts, 'pclasses': pclasses, 'pinsts': pinsts,
             'ids': ids, 'faults': faults, 'shape': shape}
 
@@ -1621,7 +1678,7 @@ def gen_op(kind, sh, rng, cfg, state):
 
 
 NESTED = ['create', 'add', 'add_replace', 'remove', 'delete', 'delete_now',
-          'touch', 'probe', 'disable', 'enable']
+          'touch', 'probe', 'disable', 'enable', 'process', 'delete']
 
 
 def generate(prop, run_seed, tier='quick', tolerate=frozenset()):
@@ -1790,7 +1847,7 @@ PROBES = {
             'touch.delete_again', 'touch.delete_immediate',
             'frames_after_failure', 'reap>=2_entities_one_frame',
             'request_in_processor', 'request_in_on_remove',
-            'frame_failed_by_processor'],
+            'frame_failed_by_processor', 'nested_process'],
     'C06': ['diamond_query', 'exact_and_subtype_both_attached',
             'late_subclass_created',
             'remove_by_base_with_two_subtype_matches',
